@@ -104,6 +104,11 @@ impl<'a> OuterFromImpl<'a> for FromAttributesImpl<'a> {
     }
 
     fn trait_bound(&self) -> syn::Path {
+        // A newtype hands the whole input to its field's implementation of this trait.
+        if matches!(self.base.data, Data::Struct(ref data) if data.is_newtype()) {
+            return self.trait_path();
+        }
+
         path!(::darling::FromMeta)
     }
 
